@@ -272,3 +272,38 @@ def field_path(e):
         e = e[4]
     names.reverse()
     return names, e
+
+
+# ---------------------------------------------------------------------------- inlining of local pure helpers
+def inline_pure(F, X, e, depth=3, keep=()):
+    """replace calls to local, synchronous functions (not closures) by their return-value expression with the
+    arguments substituted, so that a value computed by an extracted helper is seen like the inline computation.
+    Functions whose canonical name is in `keep` stay as call nodes (rule anchors)."""
+    if depth <= 0:
+        return e
+
+    def f(x):
+        if x[0] == "call":
+            name = x[4].resolved or x[1]
+            if callable(keep):
+                if keep(name) or keep(x[1]):
+                    return x
+            elif name in keep or x[1] in keep:
+                return x
+            b = F.by_cdef.get(name)
+            if b is None or b.kind not in ("Fn", "AssocFn") or derive_like(b):
+                return x
+            fi = F.fns.get(name)
+            if fi and fi.get("async"):
+                return x
+            r = inline_call(F, X, x)
+            if r is None:
+                return x
+            return inline_pure(F, X, r, depth - 1, keep)
+        return x
+    return map_expr(e, f)
+
+
+def derive_like(b):
+    from mir import derive_generated
+    return derive_generated(b.span)
